@@ -59,6 +59,9 @@ var c13Queries = []c13query{
 	// queries built without any option: nothing but the selector cache and the registries may be shared
 	{name: "getvar-no-options", sql: "SELECT id, GETVAR('k') AS v FROM t", noopts: true},
 	{name: "setvar-no-options", sql: "SELECT SETVAR('k', a), id FROM t", noopts: true, mayFail: true},
+	// a FROM path with an open-ended range: `end` is resolved per evaluation (the parsed selector is
+	// shared through the process-wide cache)
+	{name: "range-end", sql: "SELECT id FROM `t[(1:end)]`"},
 	// one statement text, two readings: with the dialect option "a" is a column, without it a string
 	{name: "dquote-pg", sql: "SELECT \"a\" AS x FROM t", pg: true, expect: `{"x":1};{"x":2}`},
 	{name: "dquote-plain", sql: "SELECT \"a\" AS x FROM t", expect: `{"x":"a"};{"x":"a"}`},
@@ -69,6 +72,7 @@ var c13Queries = []c13query{
 	{name: "async-nested-from-filtered", sql: "SELECT id, ASYNC.HFAST(a) AS f FROM m WHERE HMID(a) > 0", single: true},
 	{name: "vars-async-reader", sql: "SELECT id, SETVAR('k', id), SPINASYNC.HPEEK('k'), GETVAR('k') AS g FROM t", single: true},
 	{name: "vars-async-writer", sql: "SELECT id, GETVAR('k') AS g0, SPINASYNC.HPOKE('j', id), SETVAR('k', id), GETVAR('k') AS g FROM t", single: true},
+	{name: "join-right-derived-async", sql: "SELECT * FROM t x JOIN (SELECT rid, ASYNC.HMID(b) AS v FROM u) y ON x.id = y.rid", single: true, bag: true},
 	{name: "async-in-subquery", sql: "SELECT id, (SELECT ASYNC.HMID(q) AS m FROM items) AS s FROM t", single: true},
 	{name: "async-in-cte-twice", sql: "WITH c AS (SELECT id, ASYNC.HFAST(a) AS f FROM t) SELECT id FROM c UNION ALL SELECT id FROM c", single: true},
 }
@@ -359,7 +363,7 @@ func (p *c13) RunCase(i int) *core.CaseResult {
 
 func (p *c13) Meta() core.Meta {
 	return core.Meta{
-		Rule: "one case per harness: 1 query alone (internal parallelism), or every unordered pair (thorough: also triples over a 7-query subset) of 20 queries, plus 6 single-only harnesses (ASYNC in a nested FROM with several inner arrays, ASYNC / SPINASYNC readers and writers of the variable store next to SETVAR / GETVAR, ASYNC inside a row-scoped subquery and inside a CTE read twice) (filter, projection, fresh path selector, group-by, joins incl. PARALLEL hash and nested, ASYNC, SPINASYNC, CTE, IN-subquery, EXISTS, ORDER BY+DISTINCT, SETVAR/GETVAR, UNION and JOIN USING with the same text in every thread, GETVAR / SETVAR built without any option, one statement text with and without PostgresEscapingDialect) x {separate documents, one shared document} x {cold selector cache, warm cache}; each case = stateless exploration of every interleaving with <= 2 (thorough 3) preemptions at sync-operation granularity of the real engine under the -race build; oracle per schedule: no new race report, no deadlock / goroutine panic (scheduler), every thread's result equals its solo result. non-trivial = more than one schedule executed",
+		Rule: "one case per harness: 1 query alone (internal parallelism), or every unordered pair (thorough: also triples over a 7-query subset) of 21 queries, plus 7 single-only harnesses (ASYNC in a nested FROM with several inner arrays, ASYNC / SPINASYNC readers and writers of the variable store next to SETVAR / GETVAR, ASYNC inside a row-scoped subquery and inside a CTE read twice) (filter, projection, fresh path selector, group-by, joins incl. PARALLEL hash and nested, ASYNC, SPINASYNC, CTE, IN-subquery, EXISTS, ORDER BY+DISTINCT, SETVAR/GETVAR, UNION and JOIN USING with the same text in every thread, GETVAR / SETVAR built without any option, one statement text with and without PostgresEscapingDialect) x {separate documents, one shared document} x {cold selector cache, warm cache}; each case = stateless exploration of every interleaving with <= 2 (thorough 3) preemptions at sync-operation granularity of the real engine under the -race build; oracle per schedule: no new race report, no deadlock / goroutine panic (scheduler), every thread's result equals its solo result. non-trivial = more than one schedule executed",
 		Assumptions: []string{
 			"scheduling points at every Mutex/RWMutex/WaitGroup operation, go statement, thread exit and harness yield; unsynchronised accesses are covered by the happens-before race monitor on each explored schedule (DRF-SC)",
 			"the race detector reports each distinct race (stack pair) once per worker process; a report is attributed to the first case of that worker that exhibits it",
